@@ -44,6 +44,9 @@ abbrev SW : Nat := NV.Gen.C06.strRefBits
 
 inductive Kind where
   | arr | map | cls | buf | fn | str | mstr | obj | call | sent
+  | prog    -- program_t: counter `ref` (reference_prog / free_prog); items = the programs it inherits
+  | pack    -- bookkeeping of the harness: n anonymous clones (each item = the program reference of one object
+            -- structure), or a link of the chain of such packs
   deriving DecidableEq, Repr
 
 def Kind.isStr : Kind → Bool
@@ -190,6 +193,9 @@ def incVal (s : St) (v : Val) (n : Nat) : M St :=
       if !cell.live then throw .uaf
       else pure (s.setCell c { cell with ref := incRef cell.kind cell.ref n })
 
+/-- variables of a harness object; an object cell has nVars + 1 items: the variables and its program (`ob->prog`) -/
+def nVars : Nat := 4
+
 /-! ### micro-instructions -/
 
 inductive Mi where
@@ -228,7 +234,7 @@ def rel1 (s : St) : M St :=
         let dr := decRef cell.kind cell.ref
         if !dr.2 then pure (s.upd c { cell with ref := dr.1 } rest st)
         else if cell.kind == .obj && !cell.destructed then throw .fatal
-        else if cell.kind == .obj && !(cell.items.all Val.isNum) then throw .objvars
+        else if cell.kind == .obj && !((cell.items.take nVars).all Val.isNum) then throw .objvars
         else
           pure (s.upd c { cell with ref := dr.1, live := false, items := [] } (cell.items.reverse ++ rest)
                   (st.onFree cell.kind cell.items.length))
@@ -342,7 +348,6 @@ def runMi (s : St) : List Mi → M St
 
 def nSlots : Nat := 10
 def nObjs : Nat := 4
-def nVars : Nat := 4
 def nCalls : Nat := 4
 def nSents : Nat := 4
 def rHandle (o : Nat) : Nat := nSlots + o
@@ -351,9 +356,38 @@ def rCall (k : Nat) : Nat := nSlots + 2 * nObjs + k
 def rSent (k : Nat) : Nat := nSlots + 2 * nObjs + nCalls + k
 /-- the pending input_to of the (single) interactive user -/
 def rInput : Nat := nSlots + 2 * nObjs + nCalls + nSents
-def nFixed : Nat := nSlots + 2 * nObjs + nCalls + nSents + 1
+/-- the blueprint object of /c06/uobj (holds one reference on the program) -/
+def rProg : Nat := nSlots + 2 * nObjs + nCalls + nSents + 1
+/-- the blueprint object of /c06/base, the program /c06/uobj inherits -/
+def rBase : Nat := nSlots + 2 * nObjs + nCalls + nSents + 2
+/-- chain of the packs of anonymous clones (`clones n`) -/
+def rAnon : Nat := nSlots + 2 * nObjs + nCalls + nSents + 3
+/-- replace_program() family: layout L (0..3) has three programs, /c06/ra<L> (j = 0), /c06/rb<L> (j = 1) and
+    /c06/rc<L> (j = 2), which inherits the other two; `rLay L j` is the blueprint object of program j -/
+def nLayouts : Nat := 4
+def rLay (L j : Nat) : Nat := nSlots + 2 * nObjs + nCalls + nSents + 4 + 3 * L + j
+def nFixed : Nat := nSlots + 2 * nObjs + nCalls + nSents + 4 + 3 * nLayouts
 
-def St.init : St := { roots := List.replicate nFixed (.num 0) }
+/-- variables of the first / second inherited program of layout L (4 variables altogether, the rest are rc's own) -/
+def layNa : Nat → Nat
+  | 2 => 2
+  | 3 => 3
+  | _ => 1
+def layNb : Nat → Nat
+  | 1 => 2
+  | _ => 1
+
+/-- heap index of the program of /c06/base and of /c06/uobj -/
+def cBase : Nat := 0
+def cProg : Nat := 1
+
+/-- the state after the harness has loaded /c06/uobj: the program of /c06/base is held by its blueprint object and
+    by the inherit table of the program of /c06/uobj, which is held by its own blueprint object -/
+def St.init : St :=
+  { heap := [{ kind := .prog, ref := 2, live := true, items := [], vis := false, tag := 0 },
+             { kind := .prog, ref := 1, live := true, items := [.ptr cBase], vis := false, tag := nVars }],
+    roots := (List.replicate (nFixed - 3 - 3 * nLayouts) (.num 0)) ++ [.ptr cProg, .ptr cBase, .num 0]
+               ++ List.replicate (3 * nLayouts) (.num 0) }
 
 inductive Op where
   | newarr (s n : Nat) | newmap (s : Nat) | newcls (s : Nat) | newbuf (s n : Nat)
@@ -372,13 +406,21 @@ inductive Op where
   | sent (k o s t : Nat) | rmsent (k : Nat)
   | err (s t : Nat) | efun (f s t : Nat)
   | rest (w : String) | resto (w : String)    -- restore_variable / restore_object of a (damaged) save text, result dropped
+  | fefun (f s t k : Nat)                     -- `efun f s t` with an error injected at the k-th instruction (k = 0: at every k in turn)
+  | frest (w : String) (k : Nat)              -- `rest w` with an error injected at the k-th instruction
   | inp (o s t : Nat) | input
+  | inpr (o s t : Nat)                        -- input_to("icb2", ..): the callback installs a new input_to (re-entrancy)
   | sappend (d : Nat) (w : String)            -- v[d] += "w"             (EXTEND_SVALUE_STRING)
   | sjoin (d t : Nat)                         -- v[d] += v[t]            (SVALUE_STRING_JOIN)
   | sadd (d s : Nat) (w : String)             -- v[d] = v[s] + "w"       (EXTEND_SVALUE_STRING on the pushed copy)
   | schar (d i : Nat) (w : String)            -- v[d][i] = 'w'           (unlink_string_svalue + byte store)
   | srange (d i j : Nat) (w : String)         -- v[d][i..j] = "w"        (unlink_string_svalue + copy_lvalue_range)
-  | clones (n : Nat) | unclone (n : Nat)   -- program counter probe, see ProgRef in Drive.lean
+  | clones (n : Nat) | unclone (n : Nat)   -- n further clones of /c06/uobj (only their program reference is modelled)
+  | unload (w : Nat)                        -- destruct + clean up the blueprint object of /c06/uobj (0) or /c06/base (1)
+  | reclaimu                                -- reclaim_objects() in unit mode: the variables of every object are walked (check_svalue)
+  | reclaim                                 -- reclaim_objects(): references to destructed objects found in object variables are released
+  | newobjr (o L : Nat)                     -- clone of /c06/rc<L>: inherits ra<L> (layNa L variables) and rb<L> (layNb L variables)
+  | replace (o w : Nat)                     -- replace_program() by the first (w = 0) / second (w = 1) inherited program + replace_programs()
   deriving Repr
 
 /-- number of members of the harness class -/
@@ -399,6 +441,30 @@ def objCell (s : St) (o : Nat) : Option (Nat × Cell) :=
     | some (c, cell) => if cell.live && cell.kind == .obj && !cell.destructed then some (c, cell) else none
     | none => none
   else none
+
+/-- number of variables of an object = `num_variables_total` of its program (tag of the program cell) -/
+def objVars (s : St) (cell : Cell) : Nat :=
+  match cell.items[nVars]? with
+  | some (.ptr p) =>
+    match s.heap[p]? with
+    | some pc => pc.tag
+    | none => 0
+  | _ => 0
+
+/-- the object runs the program of /c06/uobj (callbacks, add_action, input_to, function pointers) -/
+def isUobj (cell : Cell) : Bool := cell.items[nVars]? == some (.ptr cProg)
+
+/-- usable /c06/uobj object behind handle o -/
+def uobjCell (s : St) (o : Nat) : Option (Nat × Cell) :=
+  match objCell s o with
+  | some (c, cell) => if isUobj cell then some (c, cell) else none
+  | none => none
+
+/-- the layout whose program rc<L> the object still runs (replace_program() not yet done) -/
+def layoutOf (s : St) (cell : Cell) : Option Nat :=
+  match cell.items[nVars]? with
+  | some (.ptr p) => (List.range nLayouts).find? (fun L => s.roots[rLay L 2]? == some (.ptr p))
+  | _ => none
 
 /-- live string behind a root -/
 def strSlot (s : St) (i : Nat) : Option (Nat × Cell) :=
@@ -456,7 +522,26 @@ def deadObjArgs (s : St) (vs : Nat) (items : List Val) : List Mi :=
         | none => false
       | _ => false)).flatMap (fun idx => [Mi.take (.item vs idx), Mi.free])
 
-/-- what call_out() does with the call in root k -/
+def sentsOf (s : St) (c : Nat) : List Nat :=
+  (List.range nSents).filter (fun k =>
+    match slotCell s (rSent k) with
+    | some (_, sc) => sc.tag == c
+    | none => false)
+
+/-- destruct_object(ob) called from inside a running call_out callback whose two arguments sit in the stack slots
+    `top`, `top + 1` (contents `a0`, `a1`): remove_object_from_stack releases and zeroes every stack slot holding the
+    object, its sentences are freed, it is marked and queued for destruct2 -/
+def destructInCallback (s : St) (ob top : Nat) (a0 a1 : Val) : List Mi :=
+  let onStack := (List.range (top - nFixed)).filter (fun i => s.roots[nFixed + i]? == some (.ptr ob))
+  onStack.flatMap (fun i => [Mi.take (.root (nFixed + i)), Mi.free])
+    ++ (if a0 == .ptr ob then [Mi.take (.root top), Mi.free] else [])
+    ++ (if a1 == .ptr ob then [Mi.take (.root (top + 1)), Mi.free] else [])
+    ++ (sentsOf s ob).flatMap (fun k => [Mi.take (.root (rSent k)), .free, .allocd (-2), .distinct (-1)])
+    ++ [.mark ob]
+
+/-- what call_out() does with the call in root k.  tag of the call record = the callback: 0 `cb` drops its arguments,
+    1 `cbs<k>` keeps the first one in variable k of the owner, 2 `cbe` raises an error (the arguments are popped by
+    the error recovery), 3 `cbd` destructs its own object -/
 def fireProg (s : St) (k : Nat) : List Mi :=
   match slotCell s (rCall k) with
   | none => []
@@ -468,20 +553,151 @@ def fireProg (s : St) (k : Nat) : List Mi :=
         if obc.destructed then [.take (.root (rCall k)), .free, .allocd (-1)]
         else
           let top := s.roots.length
+          let dead : Val → Bool := fun v => match v with
+            | .ptr a => (match s.heap[a]? with
+              | some ac => ac.kind == .obj && ac.destructed
+              | none => false)
+            | .num _ => false
+          let arg := fun (i : Nat) => match vsc.items[i]? with
+            | some v => if dead v then Val.num 0 else v
+            | none => Val.num 0
           deadObjArgs s vs vsc.items ++
           [.pushRoot, .take (.item vs 0), .put (.root top), .pushRoot, .take (.item vs 1), .put (.root (top + 1)),
            .take (.item cc 1), .free] ++
           (if ccell.tag == 1 then [.take (.item ob k), .free, .dup (.root top), .put (.item ob k)] else []) ++
+          (if ccell.tag == 3 then destructInCallback s ob top (arg 0) (arg 1) else []) ++
           [.take (.root (top + 1)), .free, .popRoot, .take (.root top), .free, .popRoot,
            .allocd (-1), .take (.root (rCall k)), .free]
       | _, _ => []
     | _ => []
 
-def sentsOf (s : St) (c : Nat) : List Nat :=
-  (List.range nSents).filter (fun k =>
-    match slotCell s (rSent k) with
-    | some (_, sc) => sc.tag == c
-    | none => false)
+/-- insertion into a list of (call cell, slot) sorted by cell index, newest (highest) first -/
+def insCall (x : Nat × Nat) : List (Nat × Nat) → List (Nat × Nat)
+  | [] => [x]
+  | y :: ys => if y.1 ≤ x.1 then x :: y :: ys else y :: insCall x ys
+
+/-- the order in which one sweep of call_out() runs the pending calls: new_call_out() inserts a call in front of
+    the calls that are due at the same time, so the newest call (the highest cell index) runs first -/
+def sweepOrder (s : St) : List Nat :=
+  (((List.range nCalls).filterMap (fun k => match s.roots[rCall k]? with
+    | some (.ptr c) => some (c, k)
+    | _ => none)).foldl (fun acc x => insCall x acc) []).map (·.2)
+
+/-- pointer items of a pack, highest index first -/
+def packPtrs (p : Nat) (items : List Val) : List (Nat × Nat) :=
+  (items.zipIdx.filterMap (fun (v, i) => match v with
+    | .ptr _ => some (p, i)
+    | .num _ => none)).reverse
+
+/-- the anonymous clones that still exist, newest pack first: (pack cell, item index) of their program reference.
+    The chain hangs at root `rAnon`: link cells [pack, next link]. -/
+def anonFrom (s : St) : Nat → Val → List (Nat × Nat)
+  | 0, _ => []
+  | _, .num _ => []
+  | f + 1, .ptr l =>
+    match s.heap[l]? with
+    | some lc =>
+      match lc.items with
+      | [.ptr p, nxt] =>
+        (match s.heap[p]? with
+          | some pc => packPtrs p pc.items
+          | none => []) ++ anonFrom s f nxt
+      | _ => []
+    | none => []
+
+def anonSlots (s : St) : List (Nat × Nat) :=
+  match s.roots[rAnon]? with
+  | some v => anonFrom s (s.heap.length + 1) v
+  | none => []
+
+/-- object structures of anonymous clones (they count in tot_alloc_object) -/
+def anonCount (s : St) : Nat := (anonSlots s).length
+
+/-- blueprint objects of /c06/uobj and /c06/base that have been unloaded: object structures that existed at the
+    baseline and are gone (the blueprints are roots of the model, not object cells) -/
+def unloadedCount (s : St) : Nat := (if isNumRoot s rProg then 1 else 0) + (if isNumRoot s rBase then 1 else 0)
+
+/-! ### reclaim_objects() (lib/efuns/reclaim_object.c)
+
+check_svalue walks the variables of every object of the object list: a destructed object is released and zeroed, arrays
+and classes are walked element by element, a function pointer through its bound arguments, a mapping node whose key is
+a destructed object is deleted (key and value released, the value is not walked), otherwise key and value are walked.
+The recursion counter `nested` is global: `nested++; if (nested > MAX_RECURSION) return;` returns WITHOUT the
+decrement (mirrored).  The result is a list of locations to zero and of mapping nodes to delete. -/
+
+def maxRecursion : Nat := 25
+
+structure RAcc where
+  nested : Nat := 0
+  zeros : List Loc := []
+  dels : List (Nat × Nat) := []
+
+def reclaimGo : Nat → St → Loc → RAcc → RAcc
+  | 0, _, _, a => a
+  | f + 1, s, loc, a =>
+    let a := { a with nested := a.nested + 1 }
+    if a.nested > maxRecursion then a
+    else
+      let a' : RAcc := match readLoc s loc with
+        | .ok (.ptr c) =>
+          match s.heap[c]? with
+          | some cell =>
+            if !cell.live then a
+            else match cell.kind with
+              | .obj => if cell.destructed then { a with zeros := loc :: a.zeros } else a
+              | .arr => (List.range cell.items.length).foldl (fun a i => reclaimGo f s (.item c i) a) a
+              | .cls => (List.range cell.items.length).foldl (fun a i => reclaimGo f s (.item c i) a) a
+              | .fn => (match (cell.items[0]? : Option Val) with
+                | some (Val.ptr _) => reclaimGo f s (.item c 0) a
+                | _ => a)
+              | .map => (List.range (cell.items.length / 2)).foldl (fun a j =>
+                  let keyObj : Option Bool := match (cell.items[2 * j]? : Option Val) with
+                    | some (Val.ptr k) => (match s.heap[k]? with
+                      | some kc => if kc.kind == .obj then some kc.destructed else none
+                      | none => none)
+                    | _ => none
+                  match keyObj with
+                  | some true => { a with dels := (c, j) :: a.dels }
+                  | some false => reclaimGo f s (.item c (2 * j + 1)) a
+                  | none => reclaimGo f s (.item c (2 * j + 1)) (reclaimGo f s (.item c (2 * j)) a)) a
+              | _ => a
+          | none => a
+        | _ => a
+      { a' with nested := a'.nested - 1 }
+
+def insDel (x : Nat × Nat) : List (Nat × Nat) → List (Nat × Nat)
+  | [] => [x]
+  | y :: ys =>
+    if x == y then y :: ys
+    else if y.1 < x.1 || (y.1 == x.1 && y.2 < x.2) then x :: y :: ys else y :: insDel x ys
+
+/-- objects of the object list, newest first, with the number of their variables -/
+def listedObjects (s : St) : List (Nat × Nat) :=
+  ((List.range s.heap.length).filterMap (fun c => match s.heap[c]? with
+    | some cell => if cell.live && cell.kind == .obj && !cell.destructed then some (c, min nVars (objVars s cell)) else none
+    | none => none)).reverse
+
+/-- check_svalue on an array variable of the interpreter object whose elements are the given locations -/
+def reclaimArr (f : Nat) (s : St) (locs : List Loc) (a : RAcc) : RAcc :=
+  let a := { a with nested := a.nested + 1 }
+  if a.nested > maxRecursion then a
+  else
+    let a' := locs.foldl (fun a l => reclaimGo f s l a) a
+    { a' with nested := a'.nested - 1 }
+
+/-- `withMain`: lpc mode - the interpreter object /c06/main is the oldest object of the case; its variables `v` (the
+    slots) and `obs` (the handles) are walked last -/
+def reclaimProg (s : St) (withMain : Bool) : List Mi :=
+  let fuel := s.size + s.heap.length + s.roots.length + 2
+  let a := (listedObjects s).foldl (fun a (c, n) =>
+    (List.range n).foldl (fun a i => reclaimGo fuel s (.item c i) a) a) ({} : RAcc)
+  let a := if withMain then
+      reclaimArr fuel s ((List.range nObjs).map (fun o => Loc.root (rHandle o)))
+        (reclaimArr fuel s ((List.range nSlots).map Loc.root) a)
+    else a
+  let dels := a.dels.foldl (fun acc x => insDel x acc) []
+  a.zeros.reverse.flatMap (fun l => [Mi.take l, Mi.free]) ++
+    dels.flatMap (fun (c, j) => [Mi.take (.item c (2 * j)), .free, .take (.item c (2 * j + 1)), .free, .shrink c j])
 
 /-- translate an operation into its micro program in the current state; `none` = not applicable (skip) -/
 def compile (s : St) (op : Op) : Option (List Mi) :=
@@ -495,7 +711,7 @@ def compile (s : St) (op : Op) : Option (List Mi) :=
   | .newstr d w => if d < nSlots then some (.share w :: intoSlot d) else none
   | .newmstr d w => if d < nSlots then some (.alloc .mstr 0 true w 0 :: intoSlot d) else none
   | .newfun d o t =>
-    match objCell s o with
+    match uobjCell s o with
     | some (_, _) =>
       if d < nSlots && t < nSlots then
         some ([.alloc .arr 1 false "" 0, .dup (.root t), .put (.item fresh 0),
@@ -567,16 +783,18 @@ def compile (s : St) (op : Op) : Option (List Mi) :=
       some [.take (.root d), .free, .take (.root (top - 1)), .put (.root d), .popRoot]
     else none
   | .newobj o =>
-    if o < nObjs && isNumRoot s (rHandle o) && isNumRoot s (rExist o) then
-      some [.alloc .obj nVars true "" o, .put (.root (rExist o)), .dup (.root (rExist o)), .put (.root (rHandle o))]
+    -- clone_object: get_empty_object, new_ob->prog = ob->prog, reference_prog, obj_list, (harness) add_ref
+    if o < nObjs && isNumRoot s (rHandle o) && isNumRoot s (rExist o) && !isNumRoot s rProg then
+      some [.alloc .obj (nVars + 1) true "" o, .dup (.root rProg), .put (.item fresh nVars),
+            .put (.root (rExist o)), .dup (.root (rExist o)), .put (.root (rHandle o))]
     else none
   | .setvar o i t =>
     match objCell s o with
-    | some (c, _) => if i < nVars && t < nSlots then some (assignProg (.item c i) (.root t)) else none
+    | some (c, cell) => if i < objVars s cell && i < nVars && t < nSlots then some (assignProg (.item c i) (.root t)) else none
     | none => none
   | .getvar d o i =>
     match objCell s o with
-    | some (c, _) => if i < nVars && d < nSlots then some (assignProg (.root d) (.item c i)) else none
+    | some (c, cell) => if i < objVars s cell && i < nVars && d < nSlots then some (assignProg (.root d) (.item c i)) else none
     | none => none
   | .oref d o =>
     match objCell s o with
@@ -601,7 +819,7 @@ def compile (s : St) (op : Op) : Option (List Mi) :=
   | .drop o =>
     if o < nObjs && !isNumRoot s (rHandle o) then some [.take (.root (rHandle o)), .free] else none
   | .call k o st a b =>
-    match objCell s o with
+    match uobjCell s o with
     | some (_, _) =>
       if k < nCalls && a < nSlots && b < nSlots && isNumRoot s (rCall k) then
         some [.alloc .arr 2 false "" 0, .dup (.root a), .put (.item fresh 0), .dup (.root b), .put (.item fresh 1),
@@ -624,7 +842,7 @@ def compile (s : St) (op : Op) : Option (List Mi) :=
       | _ => none
     | none => none
   | .rmall o =>
-    match objCell s o with
+    match uobjCell s o with
     | some (c, _) =>
       some (((List.range nCalls).filter (fun k => match slotCell s (rCall k) with
           | some (_, ccell) =>
@@ -638,7 +856,7 @@ def compile (s : St) (op : Op) : Option (List Mi) :=
     | none => none
   | .sweep => none   -- handled by `step` (each call is compiled in the state left by the previous one)
   | .sent k o a b =>
-    match objCell s o with
+    match uobjCell s o with
     | some (c, _) =>
       if k < nSents && a < nSlots && b < nSlots && isNumRoot s (rSent k) then
         some [.alloc .arr 2 false "" 0, .dup (.root a), .put (.item fresh 0), .dup (.root b), .put (.item fresh 1),
@@ -659,12 +877,23 @@ def compile (s : St) (op : Op) : Option (List Mi) :=
   | .inp o a b =>
     -- input_to("icb", 0, a, b) called by object o for the interactive user: sentence -> (carry-over array, function
     -- pointer owned by o).  destruct_object(o) does NOT remove it (sentence->ob is 0), only the next input does.
-    match objCell s o with
+    match uobjCell s o with
     | some (_, _) =>
       if a < nSlots && b < nSlots && isNumRoot s rInput then
         some [.alloc .arr 2 false "" 0, .dup (.root a), .put (.item fresh 0), .dup (.root b), .put (.item fresh 1),
               .alloc .fn 2 false "" 0, .dup (.root (rHandle o)), .put (.item (fresh + 1) 1),
               .alloc .sent 2 false "" 0, .swap, .put (.item (fresh + 2) 1), .swap, .put (.item (fresh + 2) 0),
+              .put (.root rInput)]
+      else none
+    | none => none
+  | .inpr o a b =>
+    -- the same with the callback icb2 (tag 1 of the sentence): when the input arrives it calls input_to("icb", 0, b, a)
+    match uobjCell s o with
+    | some (_, _) =>
+      if a < nSlots && b < nSlots && isNumRoot s rInput then
+        some [.alloc .arr 2 false "" 0, .dup (.root a), .put (.item fresh 0), .dup (.root b), .put (.item fresh 1),
+              .alloc .fn 2 false "" 0, .dup (.root (rHandle o)), .put (.item (fresh + 1) 1),
+              .alloc .sent 2 false "" 1, .swap, .put (.item (fresh + 2) 1), .swap, .put (.item (fresh + 2) 0),
               .put (.root rInput)]
       else none
     | none => none
@@ -675,12 +904,27 @@ def compile (s : St) (op : Op) : Option (List Mi) :=
     match slotCell s rInput with
     | some (sc, scell) =>
       match scell.items with
-      | [.ptr vs, .ptr _] =>
-        some [.dup (.item sc 1), .dup (.item sc 0), .take (.root rInput), .free,
+      | [.ptr vs, .ptr fnc] =>
+        -- the callback icb2 (sentence tag 1) of a live owner installs a new input_to with its two arguments swapped:
+        -- the old sentence has been freed before the call, so set_call() accepts the new one
+        let ownerAlive := match s.heap[fnc]? with
+          | some fcell => (match (fcell.items[1]? : Option Val) with
+            | some (Val.ptr ow) => (match s.heap[ow]? with
+              | some oc => oc.live && !oc.destructed
+              | none => false)
+            | _ => false)
+          | none => false
+        let rearm := if scell.tag == 1 && ownerAlive then
+            [Mi.alloc .arr 2 false "" 0, .dup (.root (top + 1)), .put (.item fresh 0), .dup (.root top), .put (.item fresh 1),
+             .alloc .fn 2 false "" 0, .dup (.item fnc 1), .put (.item (fresh + 1) 1),
+             .alloc .sent 2 false "" 0, .swap, .put (.item (fresh + 2) 1), .swap, .put (.item (fresh + 2) 0),
+             .put (.root rInput)]
+          else []
+        some ([.dup (.item sc 1), .dup (.item sc 0), .take (.root rInput), .free,
               .pushRoot, .dup (.item vs 0), .put (.root top), .pushRoot, .dup (.item vs 1), .put (.root (top + 1)),
-              .free,
-              .take (.root (top + 1)), .free, .popRoot, .take (.root top), .free, .popRoot,
-              .free]
+              .free] ++ rearm ++
+              [.take (.root (top + 1)), .free, .popRoot, .take (.root top), .free, .popRoot,
+              .free])
       | _ => none
     | none => none
   | .sappend d w =>
@@ -727,8 +971,64 @@ def compile (s : St) (op : Op) : Option (List Mi) :=
   | .efun _ _ _ => none
   | .rest _ => none
   | .resto _ => none
-  | .clones _ => none
-  | .unclone _ => none
+  | .fefun _ _ _ _ => none
+  | .frest _ _ => none
+  | .clones n =>
+    -- n times clone_object: n object structures, each with one reference on the program (reference_prog); the
+    -- pack goes in front of the chain at rAnon
+    if 0 < n && !isNumRoot s rProg then
+      some [.alloc .pack n false "" 0, .fillFrom fresh (.root rProg),
+            .alloc .pack 2 false "" 1, .swap, .put (.item (fresh + 1) 0),
+            .take (.root rAnon), .put (.item (fresh + 1) 1), .put (.root rAnon)]
+    else none
+  | .unclone n =>
+    -- n anonymous clones destructed and cleaned up one at a time: dealloc_object -> free_prog(ob->prog)
+    let sl := anonSlots s
+    if sl.length < n || !s.dlist.isEmpty then none
+    else some ((sl.take n).flatMap (fun (p, i) => [Mi.take (.item p i), Mi.free]))
+  | .reclaimu => some (reclaimProg s false)
+  | .reclaim =>
+    -- lpc mode: the same walk; the interpreter object's variables `v` (slots) and `obs` (handles) are object variables
+    -- too: the handles of destructed objects go - unless the recursion counter has been used up by a deep or cyclic
+    -- value met earlier (the missing decrement of check_svalue)
+    some (reclaimProg s true)
+  | .newobjr o L =>
+    if o < nObjs && L < nLayouts && isNumRoot s (rHandle o) && isNumRoot s (rExist o) then
+      -- the three programs of the layout become visible (tracked) cells the first time the layout is used: ra, rb
+      -- held by their blueprint objects and by the inherit table of rc
+      let progs := if isNumRoot s (rLay L 2) then
+          [Mi.alloc .prog 0 true "" (layNa L), .put (.root (rLay L 0)),
+           .alloc .prog 0 true "" (layNb L), .put (.root (rLay L 1)),
+           .alloc .prog 2 true "" nVars, .dup (.root (rLay L 0)), .put (.item (fresh + 2) 0),
+           .dup (.root (rLay L 1)), .put (.item (fresh + 2) 1), .put (.root (rLay L 2))]
+        else []
+      let f := fresh + (if isNumRoot s (rLay L 2) then 3 else 0)
+      some (progs ++ [.alloc .obj (nVars + 1) true "" o, .dup (.root (rLay L 2)), .put (.item f nVars),
+                      .put (.root (rExist o)), .dup (.root (rExist o)), .put (.root (rHandle o))])
+    else none
+  | .replace o w =>
+    -- replace_programs() (lib/efuns/replace_program.c) for one object: the variables of the kept program are moved to
+    -- the front (the slot they go to is released first), every other variable is released, then
+    -- `new_prog->ref++; ob->prog = new_prog; free_prog (old_prog)`
+    match objCell s o with
+    | some (c, cell) =>
+      match layoutOf s cell with
+      | some L =>
+        if w < 2 then
+          let kept := if w == 0 then layNa L else layNb L
+          let offset := if w == 0 then 0 else layNa L
+          let move := if offset == 0 then [] else
+            (List.range kept).flatMap (fun i => [Mi.take (.item c i), .free, .take (.item c (i + offset)), .put (.item c i)])
+          let rest := (List.range (nVars - kept)).flatMap (fun j => [Mi.take (.item c (kept + j)), Mi.free])
+          some (move ++ rest ++ [.dup (.root (rLay L w)), .take (.item c nVars), .swap, .put (.item c nVars), .free])
+        else none
+      | none => none
+    | none => none
+  | .unload w =>
+    -- the blueprint object is destructed and cleaned up: its reference on the program is released (free_prog); the
+    -- program goes when no clone is left, and releases the programs it inherits (deallocate_program)
+    let r := if w == 0 then rProg else rBase
+    if w < 2 && !isNumRoot s r && s.dlist.isEmpty then some [.take (.root r), .free] else none
 
 /-- result of one operation -/
 inductive Res where
@@ -743,13 +1043,15 @@ def sweepFrom (s : St) : List Nat → M St
 def step (s : St) (op : Op) : Res :=
   match op with
   | .sweep =>
-    match sweepFrom s (List.range nCalls) with
+    match sweepFrom s (sweepOrder s) with
     | .ok s' => .ok s'
     | .error e => .fail e
   | .err _ _ => .ok s
   | .efun _ _ _ => .ok s
   | .rest _ => .ok s
   | .resto _ => .ok s
+  | .fefun _ _ _ _ => .ok s
+  | .frest _ _ => .ok s
   | op =>
     match compile s op with
     | none => .skip
